@@ -109,6 +109,7 @@ fn run_random<K: KeyT, V: ValT>(a: &Args) {
         let mut g = gen::Gen {
             cfg: gen::GenCfg { nkeys, set: a.flag("set"), two: a.flag("two"), hm, limits: a.flag("limits"), zst: K::NAME == "zst", par: a.flag("par"), serde: a.flag("serde"), entry: a.flag("entry") },
             rng: SmallRng::seed_from_u64(seed.wrapping_mul(1000003).wrapping_add(run)),
+            promised: false,
         };
         rebase_live();
         emit(&mut out, &json!({"op":"Reset","run":run,"hm":hm,"nkeys":nkeys}));
@@ -150,6 +151,7 @@ fn run_faults<K: KeyT, V: ValT>(a: &Args) {
         let mk = |sd: u64| gen::Gen {
             cfg: gen::GenCfg { nkeys, set: a.flag("set"), two: a.flag("two"), hm, limits: false, zst: K::NAME == "zst", par: false, serde: false, entry: false },
             rng: SmallRng::seed_from_u64(sd),
+            promised: false,
         };
         let mut g = mk(seed.wrapping_mul(7777).wrapping_add(si));
         // prefix: generated by executing on a scratch world, steered into a target phase
